@@ -180,10 +180,10 @@ theorem get_replicate_default (n j : Nat) (s : Seg) (h : s.slots = Array.replica
   split <;> rfl
 
 /-- **`read_text` builds a well-formed stream** of one slot per character -/
-theorem initSeg_wf (font : Font) (text : List Nat) : WF (initSeg font text) := by
+theorem initSeg_wf (font : Font) (text : List Nat) (dir : Nat := 0) : WF (initSeg font text dir) := by
   unfold initSeg
   simp only []
-  let s0 : Seg := { numGlyphs := text.length, numChars := text.length, slots := Array.replicate (text.length + 10) ({} : Slot), free := List.range (text.length + 10), bufSize := Nat.log2 text.length + 1 }
+  let s0 : Seg := { numGlyphs := text.length, numChars := text.length, slots := Array.replicate (text.length + 10) ({} : Slot), free := List.range (text.length + 10), bufSize := Nat.log2 text.length + 1, dir := dir }
   have hg : ∀ j, s0.get j = {} := fun j => get_replicate_default (text.length + 10) j s0 rfl
   have hl0 : Linked s0 [] := ⟨by simp, fun i hi => (by cases hi), rfl, rfl, trivial⟩
   have hinb : ∀ f ∈ s0.free, f < s0.slots.size := fun f hf => by
@@ -234,8 +234,8 @@ theorem reassoc_wf {seg seg' : Seg} {n : Nat} {ci : List Assoc.CI} (h : WF seg) 
 text: when `shape` returns a segment, its slots form a well-formed doubly linked list – `first`/`last` are its ends,
 `next`/`prev` are mutually consistent, no slot occurs twice, none is marked deleted or copied, and its length is the
 segment's glyph count. -/
-theorem shape_wf (font : Font) (text : List Nat) (fuel : Nat) {c : Ctx} {ci : List Assoc.CI}
-    (e : shape font text fuel = .ok (some (c, ci))) : WF c.seg := by
+theorem shape_wf (font : Font) (text : List Nat) (fuel : Nat) (dir : Nat) {c : Ctx} {ci : List Assoc.CI}
+    (e : shape font text fuel dir = .ok (some (c, ci))) : WF c.seg := by
   unfold shape at e
   split at e
   · simp only [Except.ok.injEq, Option.some.injEq, Prod.mk.injEq] at e
@@ -247,7 +247,7 @@ theorem shape_wf (font : Font) (text : List Nat) (fuel : Nat) {c : Ctx} {ci : Li
     · cases e
     · cases e
     · rename_i c1 h1
-      have w1 : WF c1.seg := runRange_spec _ _ _ _ _ (initSeg_wf font text) h1
+      have w1 : WF c1.seg := runRange_spec _ _ _ _ _ (initSeg_wf font text dir) h1
       split at e
       · cases e
       · rename_i seg' ci' hre
